@@ -21,7 +21,10 @@ RULE = ('Configuration grid reconnection on/off x reconnection_attempts '
         'namespace, server CLOSE}; outcome pattern of the successive '
         'attempts {transport failure, namespace refusal, transport lost again before the namespaces are answered, success} (all '
         'patterns up to length 4 enumerated, longer ones sampled); '
-        'shutdown() during the k-th back-off wait; a further loss right '
+        'shutdown() during the k-th back-off wait; the application connect '
+        'handler of one namespace raising, or stalling longer than the '
+        "attempt's wait, at its j-th invocation during the effort (the "
+        'server accepted: still the first success); a further loss right '
         'after a successful reconnection; a manual connect() and another '
         'loss after an effort ended. Waits are observed as the arguments of '
         'the wait primitives (threaded: harness event; asyncio: wait_for '
@@ -86,7 +89,12 @@ def strategy(tier):
         'outcomes': st.lists(st.sampled_from(['fail', 'fail', 'refuse',
                                               'drop', 'ok']), max_size=8),
         'abort_at': st.one_of(st.none(), st.none(), st.integers(1, 6)),
-        'second_loss': st.booleans(), 'manual': st.booleans()})
+        'second_loss': st.booleans(), 'manual': st.booleans(),
+        # the application's connect handler of one namespace faults at its
+        # j-th invocation during the first reconnection effort
+        'chf': st.one_of(st.none(), st.none(), st.fixed_dictionaries({
+            'ns': st.integers(0, 2), 'j': st.integers(1, 3),
+            'mode': st.sampled_from(['raise', 'stall'])}))})
 
 
 def check_case(case):
@@ -110,9 +118,36 @@ def _run(case, h):
     aio = case['aio']
     nss = [NSS[i] for i in case['nss']]
     log = []
+    chf = case.get('chf')
+    chf_state = {'on': False, 'n': 0, 'hit': False}
+
+    def mk_connect(n):
+        def faulty():
+            if chf and chf_state['on'] and \
+                    n == nss[chf['ns'] % len(nss)]:
+                chf_state['n'] += 1
+                if chf_state['n'] == chf['j']:
+                    chf_state['hit'] = True
+                    return True
+            return False
+        if aio:
+            async def on_connect():
+                log.append(('connect', n))
+                if faulty():
+                    if chf['mode'] == 'stall':
+                        # longer than the 1 s a reconnection attempt waits
+                        await asyncio.sleep(1.3)
+                    else:
+                        raise RuntimeError('application connect handler '
+                                           'fault')
+        else:
+            def on_connect():
+                log.append(('connect', n))
+                if faulty():
+                    raise RuntimeError('application connect handler fault')
+        return on_connect
     for n in NSS:
-        sio.on('connect', (lambda n: lambda: log.append(('connect', n)))(n),
-               namespace=n)
+        sio.on('connect', mk_connect(n), namespace=n)
         sio.on('disconnect', (lambda n: lambda *a: log.append(
             ('disconnect', n) + a))(n), namespace=n)
     calls = {'auth': 0, 'url': 0}
@@ -400,9 +435,16 @@ def _run(case, h):
         return labels
     if started != 1:
         raise Violation('effort-count', '%d efforts started' % started)
+    chf_state['on'] = True
     waits = run_effort()
+    chf_state['on'] = False
+    if aio:
+        h.loop.run_until_idle()
     n_att, how = check_effort(waits, n0, cb, ab, ub, case['outcomes'],
                               case['abort_at'], limit, 'first effort')
+    if chf_state['hit']:
+        labels['connect_handler_fault'] = True
+        labels['nontrivial'] = True
     labels['how'] = how
     labels['attempts'] = min(n_att, 6)
     fails = sum(1 for o in (case['outcomes'] + ['fail'] * 20)[:n_att]
